@@ -167,7 +167,9 @@ func TestVerifC09PruneCrashPrefixes(t *testing.T) {
 			probe.Release()
 			if perr == nil && len(plog) > 1 {
 				h.PreCrash = rapid.IntRange(1, len(plog)-1).Draw(t, "precrashAt")
-				e.ReplaceStore(probe.store.StateAt(h.PreCrash))
+				crashed := probe.store.StateAt(h.PreCrash)
+				crashed.DropLocks() // the interrupted process is dead, `restic unlock` removed its lock
+				e.ReplaceStore(crashed)
 			}
 		}
 
